@@ -25,6 +25,10 @@ type BoundedResult struct {
 	Output   string `json:"output,omitempty"`
 	OK       bool   `json:"ok"`
 	WallS    float64 `json:"wall_s"`
+	// FailLines: every GOVC-BOUNDED-FAIL line of the run (the tests print all of them), used to attribute failures
+	// to open known findings by input pattern.
+	FailLines []string `json:"-"`
+	Known     []string `json:"known_findings,omitempty"`
 }
 
 func runBounded(repo, prop string) []BoundedResult {
@@ -75,6 +79,11 @@ func runBounded(repo, prop string) []BoundedResult {
 			fmt.Sscanf(d[2], "%d", &f)
 			res.Cases += c
 			res.Failures += f
+		}
+		for _, l := range strings.Split(txt, "\n") {
+			if strings.HasPrefix(l, "GOVC-BOUNDED-FAIL") {
+				res.FailLines = append(res.FailLines, l)
+			}
 		}
 		res.OK = err == nil && done != nil && res.Failures == 0
 		if !res.OK {
